@@ -158,6 +158,9 @@ func init() {
 			x.Quiesce(8 * time.Second)
 			checkNoLeak(x, "hashicorp/go-plugin.")
 		},
+		Conform: func() []explore.Params {
+			return []explore.Params{{"pat": "hA0"}, {"pat": "pD0"}, {"pat": "pA0,hD0"}, {"pat": "hA0", "var": "tls"}}
+		},
 		Instances: routeInstances,
 	})
 }
